@@ -442,6 +442,8 @@ func newPrio(c Cfg, w *vrt.World) *explore.Instance {
 				if c.Mode == "preclosed" {
 					vrt.CloseNow(ch)
 					m.inClosed[i] = true
+				} else if c.Mode == "idleopen" && n == 0 {
+					// stays open and silent for ever
 				} else {
 					prefilled = append(prefilled, i)
 				}
@@ -690,6 +692,9 @@ func newPrio(c Cfg, w *vrt.World) *explore.Instance {
 		if c.Mode == "open" || c.Mode == "saturate" || c.Mode == "alone" || c.Mode == "stingy" || c.Mode == "withhold" {
 			return true
 		}
+		if c.Mode == "idleopen" {
+			return m.delivered == totalItems
+		}
 		return m.errClosed
 	}
 	inst.State = func(w *vrt.World) string { return m.stateOracle(w) }
@@ -715,6 +720,12 @@ func (m *prioMon) terminal(w *vrt.World, out vrt.Outcome, totalItems int, divw *
 		// C06: a priority that is alone in having data is granted all H handlers
 		if uint(m.total) != m.H && want(c, "C06") {
 			return fmt.Sprintf("C06: only one priority has data (more than H items), nothing is released, but it holds %d of %d handlers (in flight %v)", m.total, m.H, m.inflight)
+		}
+		return ""
+	}
+	if c.Mode == "idleopen" {
+		if m.delivered != totalItems && want(c, "C06") {
+			return fmt.Sprintf("C06: an input stays open and silent; only %d of the %d items written to the other inputs were delivered: %s", m.delivered, totalItems, w.Describe())
 		}
 		return ""
 	}
@@ -790,8 +801,8 @@ func (m *prioMon) terminal(w *vrt.World, out vrt.Outcome, totalItems int, divw *
 		}
 	} else if c.Script > 0 {
 		for idx, ch := range m.origin {
-			if _, registered := m.reg[ch]; registered && m.nextSeq[idx] != m.written[idx] && want(c, "C17") {
-				return fmt.Sprintf("C17: GracefulStop() returned but only %d of %d items of the registered input %d were delivered (script %v)", m.nextSeq[idx], m.written[idx], idx, m.scriptLog)
+			if _, registered := m.reg[ch]; registered && m.nextSeq[idx] != m.written[idx] && (want(c, "C17") || want(c, "C02") || want(c, "C07")) {
+				return fmt.Sprintf("%s: GracefulStop() returned but only %d of %d items written to the registered input %d were delivered (script %v)", c.Prop, m.nextSeq[idx], m.written[idx], idx, m.scriptLog)
 			}
 		}
 		if m.inHand != nil && want(c, "C17") {
@@ -1086,7 +1097,13 @@ func (m *prioMon) spawnScript(c Cfg, v1 *v1Ctl, inputs []chan Item) {
 			vrt.Mark(vrt.Mix(uint64(used), uint64(step)))
 			var avail []int
 			for op := 0; op < 5; op++ {
-				if used&(1<<uint(op)) == 0 {
+				allowed := len(c.Ops) == 0
+				for _, a := range c.Ops {
+					if a == op {
+						allowed = true
+					}
+				}
+				if allowed && used&(1<<uint(op)) == 0 {
 					avail = append(avail, op)
 				}
 			}
